@@ -39,15 +39,29 @@ def teardown(k):
     sh("git -C /repo worktree prune")
 
 
-def evaluate(base, patch, props, tier):
+STABLE_FAIL = {"test_gmm_kmeans_parallel_init", "test_gmm_kmeans_plusplus_init", "test_kmeans_fit", "test_kmeans_fit_init_pp", "test_kmeans_parameters"}
+
+
+def evaluate(base, patch, props, tier, full=False):
     repo, verif = base + "/repo", base + "/verif"
     env = dict(os.environ, VERIF_REPO=repo, PYTHONHASHSEED="0")
+    penv = dict(os.environ, PYTHONPATH=repo + "/src", PYTHONHASHSEED="0")
     out = {"patch": patch, "checks": {}}
+    demo = os.path.join(os.path.dirname(patch), "demo.py")
+    if full and os.path.exists(demo):
+        out["demo_clean_rc"] = sh("/venv/bin/python %s" % demo, cwd="/tmp", env=penv, timeout=1800)[0]
     rc, o = sh("git -C %s apply %s" % (repo, patch))
     if rc:
         out["apply_error"] = o[-300:]
         return out
     try:
+        if full and os.path.exists(demo):
+            rc, o = sh("/venv/bin/python %s" % demo, cwd="/tmp", env=penv, timeout=1800)
+            out["demo_patched_rc"], out["demo_patched_tail"] = rc, o[-300:]
+            rc, o = sh("/venv/bin/python -m pytest -q -p no:cacheprovider --timeout=900 tests 2>&1 | tail -15", cwd=repo, env=penv, timeout=3600)
+            failed = {l.split("::")[1].split(" ")[0] for l in o.splitlines() if l.startswith("FAILED") and "::" in l}
+            out["suite_unexpected_failures"] = sorted(failed - STABLE_FAIL)
+            out["suite_tail"] = o.splitlines()[-1] if o.splitlines() else ""
         for pid in props:
             rc, o = sh("/venv/bin/python run_check.py %s --tier %s" % (pid, tier), cwd=verif, env=env)
             lines = [l for l in o.splitlines() if l.startswith(("VIOLATION", "KNOWN-FINDING", "OK ", "FAIL "))]
@@ -61,6 +75,7 @@ def evaluate(base, patch, props, tier):
             out["checks"][pid] = {"rc": rc, "what": what, "nofail": any("no-failing-input-found" in l for l in lines)}
     finally:
         sh("git -C %s checkout -- ." % repo)
+        sh("git -C %s clean -fdq" % repo)
     return out
 
 
@@ -71,6 +86,7 @@ def main():
     ap.add_argument("--target-only", action="store_true", help="for /verif/seeded/<id> directories: run only the property in the directory name")
     ap.add_argument("--workers", type=int, default=4)
     ap.add_argument("--tier", default="quick")
+    ap.add_argument("--full", action="store_true", help="also run demo.py (clean and patched) and the existing test suite with the patch")
     a = ap.parse_args()
     claimed = json.load(open(os.path.join(V, "tools", "claimed.json")))
     patches = []
@@ -86,7 +102,7 @@ def main():
             props = a.props or claimed
             if a.target_only:
                 props = [os.path.basename(os.path.dirname(patch))[:3]]
-            r = evaluate(base, patch, props, a.tier)
+            r = evaluate(base, patch, props, a.tier, a.full)
             print(json.dumps(r), flush=True)
             return r
         finally:
